@@ -140,7 +140,7 @@ fn norm(s: &str, nul: bool) -> String {
 }
 
 /// lol-html's read accessors (`Comment::text`, `Attribute::value`, ...) decode with
-/// `Encoding::decode`, i.e. WITH BOM sniffing (base/bytes.rs:118). The lol-html side of the oracle
+/// `Encoding::decode`, i.e. WITH BOM sniffing (base/bytes.rs:114). The lol-html side of the oracle
 /// compares with what those accessors return for the bytes that were written (see docs/pkg-esc.md,
 /// "BOM sniffing in read accessors"); the html5ever side compares with the string itself.
 fn readback(enc: &'static Encoding, s: &str) -> String {
